@@ -30,6 +30,7 @@ import json
 import os
 
 from .. import sysgen as G
+from .. import common
 
 RULE = ("exhaustive: every sequence of 1..5 (quick) / 1..6 (thorough) molecules over {single-residue AAA, "
         "two-residue BBB, CCC = the same residue twice, unloaded solvent} x all 6 loading orders of the three "
@@ -191,7 +192,8 @@ def evaluate(ctx, case):
     blocks = case["blocks"]
     load = [int(k) for k in case["load"]]
     ops = case["ops"]
-    path = os.path.join(ctx.scratch, f"c11-{_counter[0]}.gro")
+    path = os.path.join(ctx.scratch, f"c11-{_counter[0] % 3}.gro")   # path strings reused on purpose
+    common.decoy(path, "gro")
     # ---- the file: residues numbered 1, 2, … ; remember the atom range of every block
     residues, block_atoms, block_res = [], [], []
     na = 0
